@@ -40,9 +40,14 @@ def step_residuals(res, cls, u, t, m_i):
     if gg == 0.0:
         return None, [], 0.0, 0.0
     kappa = float(np.sum(D * G) / gg)
-    # resolution of the estimate: D carries rounding of size eps*|u|; if that moves kappa by more than
-    # 1e-6 relative (updates below machine resolution, e.g. dt ~ 1e-9), the range test is not applied
-    kappa_unc = float(np.finfo(float).eps * np.max(np.abs(u)) * np.sqrt(D.size) / np.sqrt(gg)) / max(abs(kappa), 1e-300)
+    # resolution of the estimate: D carries rounding of size eps*|u| and G = dt a lap(u) carries 4 eps |u| dt a
+    # (after one step of 1e7 the second difference itself is a few ulp of u); to first order
+    # |dkappa| <= (|dD| + 3 |kappa| |dG|) / |G|.  The admissible range is widened by that much, and the range
+    # test is dropped when the estimate is not even resolved to a factor of two
+    eps = float(np.finfo(float).eps)
+    nD = eps * float(np.max(np.abs(u))) * np.sqrt(D.size)
+    nG = np.sqrt(sum((4 * eps * umax * dta) ** 2 * nx for (_b, dta, umax, _d) in TOLS))
+    kappa_unc = float((nD + 3 * abs(kappa) * nG) / np.sqrt(gg)) / max(abs(kappa), 1e-300)
     R = np.abs(D - kappa * G)
     worst = []
     rmax = 0.0
@@ -69,7 +74,7 @@ def check_run(res, cls, t, m_i, nx, case):
     if kappa is None:
         return viol, None, 0.0
     lo, hi = (nx - 1) ** 2 * (1 - 1e-6), (nx + 1) ** 2 * (1 + 1e-6)
-    if kunc <= 1e-6 and not lo <= kappa <= hi:
+    if kunc <= 0.5 and not lo * (1 - kunc) <= kappa <= hi * (1 + kunc):
         viol.append(V("be-residual/mesh-constant", f"least-squares mesh constant {kappa:.6g} is outside "
                       f"[(nx-1)^2, (nx+1)^2] = [{(nx - 1) ** 2}, {(nx + 1) ** 2}]: the steps are not a "
                       "backward-Euler update with one mesh constant", case=case, observed=kappa))
@@ -84,7 +89,9 @@ def check_run(res, cls, t, m_i, nx, case):
 
 # ------------------------------------------------------------------------------------------
 GRIDS = [("quadratic", 30, 3.0), ("geometric", 30, 0), ("irregular", 30, 3.0), ("jitter", 25, 2.0),
-         ("tiny", 20, 0), ("integer", 12, 0), ("float32", 20, 2.0)]
+         ("tiny", 20, 0), ("integer", 12, 0), ("float32", 20, 2.0),
+         # one step of 1e7 from the initial state / steps of 1e3..1e6: dt a / dx^2 up to 1e13 on the fine grids
+         ("onestep", 2, 0), ("huge", 6, 0)]
 
 
 def cases_S(tier, seed):
